@@ -99,7 +99,15 @@ PROP = "C39"
 
 HOWS = ("inner", "left", "right", "outer", "leftsemi")
 KEYFORMS = ("on", "on", "on2", "lr", "lr2", "ii", "ci", "ic", "oi", "none")
-KDTYPES = ("int", "int", "str", "float", "cat", "dt", "intfloat", "floatint")
+KDTYPES = ("int", "int", "str", "float", "cat", "dt", "intfloat", "floatint",
+           "bool", "Int64", "UInt8", "Float64", "boolean", "int32int64", "Int64int")
+# bool / nullable extension keys (pd.NA): generated for column forms only (a bool or NA-bearing index is not a
+# partitionable index); the two *mixed* kinds give the two sides different dtypes that pandas joins by value
+EXT_KINDS = ("bool", "Int64", "UInt8", "Float64", "boolean", "Int64int")
+MIXED_KINDS = ("intfloat", "floatint", "int32int64", "Int64int")
+NA_KINDS = ("str", "float", "intfloat", "cat", "Int64", "UInt8", "Float64", "boolean", "Int64int")
+K2_KINDS = ("str", "str", "bool", "Int64", "boolean")
+COLUMN_FORMS = ("on", "on2", "lr", "lr2", "none")
 BROADCAST = (None, None, True, False, 0.5, 1.0, 2.0, 4.0)
 SHUFFLE = (None, "tasks", "disk")
 SUFFIXES = (("_x", "_y"), ("_x", "_y"), ("_l", "_r"), ("", "_r"), ("_l", ""))
@@ -147,6 +155,18 @@ def cases(tier, seed):
                              "lpart": _np_desc(nl), "rpart": _np_desc(nr), "lindex": "range", "rindex": "range"}
                         c.update(_strategy_kw(strategy))
                         yield c
+    # ---- complete sub-space B: broadcast join with a multi-partition broadcast side on bool / nullable keys ------
+    for kd, nak in (("bool", False), ("Int64", True), ("boolean", True), ("Float64", True), ("UInt8", False), ("Int64int", True)):
+        for how in ("left", "right", "leftsemi"):
+            if how == "leftsemi" and kd == "Int64int":
+                continue
+            for form, k2 in (("on", "str"), ("on2", "bool"), ("lr2", "Int64")):
+                for nl, nr in (((3, 2), (4, 2), (4, 3)) if how != "right" else ((2, 3), (2, 4), (3, 4))):
+                    yield {"space": "exhaustive", "facet": "merge", "api": "method", "lseed": 3911, "rseed": 3912,
+                           "nl": 30, "nr": 24, "kd": kd, "k2": k2, "form": form, "universe": 8, "shift": 2, "nakeys": nak,
+                           "ksort": True, "how": how, "suffixes": ["_x", "_y"], "indicator": False, "npart": None,
+                           "lpart": _np_desc(nl), "rpart": _np_desc(nr), "lindex": "range", "rindex": "range",
+                           "broadcast": True, "shuffle": None}
     # ---- seeded random cases, facets interleaved (a run cut short by the time budget still sees every facet) ----
     scale = 1 if tier == "quick" else 23
     quota = {"merge": 1700 * scale, "asof": 450 * scale, "concat0": 550 * scale, "concat1": 350 * scale}
@@ -176,7 +196,33 @@ def _rand_rows(rng):
     return rng.randint(4, 40)
 
 
+def _rand_merge_bcast(rng):
+    """broadcast join (how != inner) whose broadcast side has >= 2 partitions, on bool / nullable / mixed-width keys."""
+    how = rng.choice(("left", "right", "leftsemi"))
+    kd = rng.choice(EXT_KINDS + ("int32int64", "floatint", "cat"))
+    if how == "leftsemi" and kd in MIXED_KINDS:
+        kd = "Int64"
+    form = rng.choice(("on", "on", "on2", "lr", "lr2"))
+    if how == "right":
+        a = rng.randint(2, 4)
+        nlp, nrp = a, rng.randint(a + 1, 6)
+    else:
+        b = rng.randint(2, 4)
+        nlp, nrp = rng.randint(b, 6), b
+    nl, nr = rng.randint(14, 40), rng.randint(14, 40)
+    return {"facet": "merge", "api": rng.choice(("method", "dd.merge")), "lseed": rng.randrange(2 ** 31),
+            "rseed": rng.randrange(2 ** 31), "nl": nl, "nr": nr, "kd": kd, "k2": rng.choice(K2_KINDS), "form": form,
+            "universe": rng.choice((2, 3, 5, 8, 20, 60)), "shift": rng.choice((0, 0, 1, 2)),
+            "nakeys": kd in NA_KINDS and rng.random() < 0.6, "ksort": False, "how": how,
+            "suffixes": list(rng.choice(SUFFIXES)), "indicator": rng.choice(INDICATOR) if how != "leftsemi" else False,
+            "broadcast": rng.choice((True, True, 4.0)), "shuffle": rng.choice(SHUFFLE), "npart": None,
+            "lpart": _np_desc(nlp), "rpart": _np_desc(nrp), "lindex": rng.choice(("range", "sorted", "unsorted")),
+            "rindex": rng.choice(("range", "sorted", "unsorted"))}
+
+
 def _rand_merge(rng, rand_partition_desc):
+    if rng.random() < 0.1:
+        return _rand_merge_bcast(rng)
     form = rng.choice(KEYFORMS)
     how = rng.choice(HOWS + ("inner", "left", "right", "outer"))
     kd = rng.choice(KDTYPES)
@@ -184,17 +230,19 @@ def _rand_merge(rng, rand_partition_desc):
     if how == "leftsemi":
         if form in ("ii", "ci", "oi"):
             form = rng.choice(("on", "on2", "lr", "ic"))
-        if kd in ("intfloat", "floatint"):
-            kd = "int"
+        if kd in MIXED_KINDS:
+            kd = "int"          # the leftsemi reference keeps the left dtypes; pandas defines none for mixed key dtypes
     if api == "join":
         if form not in ("ii", "ci") or how == "leftsemi":
             api = "method"
     if kd == "cat" and form in ("ii", "ci", "ic", "oi"):
         kd = "str"              # categorical keys: column forms only (see Calibration)
+    if kd in EXT_KINDS and form not in COLUMN_FORMS:
+        kd = "int"              # bool / nullable keys: column forms only
     nl, nr = _rand_rows(rng), _rand_rows(rng)
     big = max(nl, nr, 2)
     universe = rng.choice((2, 3, 5, 8, big, 2 * big))
-    nakeys = rng.random() < 0.3 and kd in ("str", "float", "intfloat", "cat")
+    nakeys = rng.random() < 0.3 and kd in NA_KINDS
     if form in ("ii", "ci", "ic", "oi") and kd in ("str", "cat"):
         nakeys = False          # from_pandas documents NotImplementedError for NA in a non-numeric index
     ksort = rng.random() < 0.7
@@ -203,8 +251,8 @@ def _rand_merge(rng, rand_partition_desc):
         suffixes = list(rng.choice(SUFFIXES[2:]))
     ind = rng.choice(INDICATOR) if how != "leftsemi" and api != "join" else False
     c = {"facet": "merge", "api": api, "lseed": rng.randrange(2 ** 31), "rseed": rng.randrange(2 ** 31),
-         "nl": nl, "nr": nr, "kd": kd, "form": form, "universe": universe, "shift": rng.choice((0, 0, 1, 2)),
-         "nakeys": nakeys, "ksort": ksort, "how": how, "suffixes": suffixes, "indicator": ind,
+         "nl": nl, "nr": nr, "kd": kd, "k2": rng.choice(K2_KINDS), "form": form, "universe": universe,
+         "shift": rng.choice((0, 0, 1, 2)), "nakeys": nakeys, "ksort": ksort, "how": how, "suffixes": suffixes, "indicator": ind,
          "broadcast": rng.choice(BROADCAST), "shuffle": rng.choice(SHUFFLE),
          "npart": rng.choice((None, None, None, 1, 2, 4, 7)),
          "lpart": rand_partition_desc(rng, nl, allow_unknown=True), "rpart": rand_partition_desc(rng, nr, allow_unknown=True),
@@ -309,8 +357,22 @@ def _key_values(codes, kd, side, na_mask, universe, shift):
     n = len(codes)
     if kd in ("intfloat", "floatint"):
         kd = ("int", "float")[(kd == "intfloat") == (side == "r")]
+    if kd == "int32int64":
+        kd = "int32" if side == "l" else "int"
+    if kd == "Int64int":
+        kd = "Int64" if side == "l" else "int"
     if kd == "int":
         return (codes * 3 - 2).astype("int64")
+    if kd == "int32":
+        return (codes * 3 - 2).astype("int32")
+    if kd == "bool":
+        return codes % 2 == 1
+    if kd in ("Int64", "UInt8", "Float64", "boolean"):
+        vals = {"Int64": codes * 3 - 2, "UInt8": codes % 250, "Float64": (codes * 3 - 2) * 0.5, "boolean": codes % 2 == 1}[kd]
+        v = pd.array(vals, dtype=kd)
+        if n:
+            v[na_mask] = pd.NA
+        return v
     if kd == "float":
         v = (codes * 3 - 2).astype("float64")
         v[na_mask] = np.nan
@@ -344,14 +406,19 @@ def _merge_frames(case):
         u = case["universe"]
         codes = r.integers(0, u, n) + (case["shift"] if side == "r" else 0)
         na = (r.random(n) < 0.2) if case["nakeys"] else np.zeros(n, dtype=bool)
-        if kd == "intfloat" and side == "l" or kd == "floatint" and side == "r":
+        if kd == "intfloat" and side == "l" or kd == "floatint" and side == "r" or kd == "Int64int" and side == "r":
             na = np.zeros(n, dtype=bool)
         data = {"k": _key_values(codes, kd, side, na, u, case["shift"])}
         if two:
-            s2 = np.array(r.choice(["p", "q"], n) if n else [], dtype=object)
-            if case["nakeys"] and n:
-                s2[r.random(n) < 0.15] = None
-            data["s"] = pd.array(s2, dtype="str")
+            k2 = case.get("k2", "str")
+            c2 = r.integers(0, 2, n)
+            na2 = (r.random(n) < 0.15) if (case["nakeys"] and k2 != "bool") else np.zeros(n, dtype=bool)
+            if k2 == "str":
+                s2 = np.array(["p", "q"], dtype=object)[c2] if n else np.array([], dtype=object)
+                s2[na2] = None
+                data["s"] = pd.array(s2, dtype="str")
+            else:
+                data["s"] = _key_values(c2, k2, side, na2, 2, 0)
         data["v"] = np.round(r.normal(size=n), 2)
         if side == "l":
             data["x"] = np.arange(n, dtype="int64")
@@ -413,7 +480,7 @@ def _chain_frame(case):
     n = ch["n"]
     codes = r.integers(0, case["universe"], n) + r.integers(0, 2)
     kd = case["kd"]
-    data = {"k": _key_values(codes, "int" if kd == "floatint" else ("float" if kd == "intfloat" else kd), "l",
+    data = {"k": _key_values(codes, {"floatint": "int", "intfloat": "float", "int32int64": "int", "Int64int": "Int64"}.get(kd, kd), "l",
                              np.zeros(n, dtype=bool), case["universe"], case["shift"]),
             "z": np.arange(n, dtype="int64") * 10}
     return pd.DataFrame(data)
@@ -598,6 +665,9 @@ def _merge_features(case, L, R, lddf, rddf, plan, kw):
     f["empty-partition-r"] = _has_empty_partition(case["rpart"], len(R), rddf) if hasattr(rddf, "npartitions") else False
     f["right-is-pandas"] = isinstance(rddf, pd.DataFrame)
     f["chain"] = case.get("chain", {}).get("how")
+    kdt = [str(df[c].dtype) for df, ks in ((L, lk), (R, rk)) for c in ks if c != "@index"]
+    f["key-dtypes"] = kdt
+    f["nullable-or-bool-key"] = any(d in ("bool", "boolean") or d[:1] in "IUF" and d[1:2].islower() for d in kdt)
     f["broadcast-join-partition-counts"] = case.get("_bj")
     return f
 
@@ -691,6 +761,8 @@ def _run_merge(case, ctx):
     ctx.op("merge:form=" + form)
     ctx.op("merge:api=" + api)
     ctx.op("merge:kd=" + case["kd"])
+    if form in ("on2", "lr2"):
+        ctx.op("merge:k2=" + case.get("k2", "str"))
     # ---- reference --------------------------------------------------------------------------
     try:
         if how == "leftsemi":
@@ -769,6 +841,15 @@ def _run_merge(case, ctx):
         ctx.count("merge_unknown_divisions")
     if case["kd"] in ("intfloat", "floatint"):
         ctx.count("merge_int_float_keys")
+    if f["nullable-or-bool-key"]:
+        ctx.count("merge_nullable_or_bool_key")
+        bj = case.get("_bj")
+        if f["broadcast-join"] and how != "inner" and bj and (bj[0] if bj[2] == "left" else bj[1]) >= 2:
+            ctx.count("broadcast-join&nullable-or-bool-key")
+    if case["kd"] == "int32int64":
+        ctx.count("merge_int32_int64_keys")
+    if form in ("on2", "lr2") and case.get("k2", "str") != "str":
+        ctx.count("merge_mixed_multi_key")
     if case["indicator"]:
         ctx.count("merge_indicator")
     if case.get("chain"):
